@@ -61,7 +61,8 @@ impl<'a> PidIterator<'a> {
         Self {
             data,
             endianness,
-            position: 0,
+            // The parameters start after the 4 byte encapsulation header
+            position: 4,
         }
     }
 }
